@@ -67,6 +67,9 @@ type sentEpisode struct {
 	connRole  map[int][2]int // connection id -> (seq of its last ROLE, reply letter)
 	namedM    map[string]bool
 	namedR    map[string]bool
+	// gate: the next ROLE command parks until released (an evaluation "in flight")
+	gate   chan struct{}
+	parked chan struct{}
 }
 
 func sentName(i int) string { return "s" + strconv.Itoa(i) + ":26379" }
@@ -192,6 +195,14 @@ func (ep *sentEpisode) respond(addr string, e *entry, i int, _ context.Context) 
 	}
 	if isCmd(a, "ROLE") {
 		ep.act(addr, "role")
+		ep.mu.Lock()
+		gate, parked := ep.gate, ep.parked
+		ep.gate, ep.parked = nil, nil
+		ep.mu.Unlock()
+		if gate != nil {
+			close(parked)
+			<-gate
+		}
 		ep.mu.Lock()
 		sp := ep.node[idx]
 		c := byte('E')
@@ -511,6 +522,128 @@ func (ep *sentEpisode) event(kind string, named bool, addr, variant int) string 
 	return ep.snapshot(result)
 }
 
+// eventDuringRefresh delivers a +switch-master / +reboot event while a refresh is parked inside its ROLE
+// check (it holds the client mutex), then lets the refresh finish. Returns the snapshot (prefixed with the
+// refresh result) once both are done.
+func (ep *sentEpisode) eventDuringRefresh(kind string, named bool, addr int) string {
+	if ep.client == nil {
+		return "no-client"
+	}
+	ep.mu.Lock()
+	cb := ep.cb
+	ep.mu.Unlock()
+	if cb == nil {
+		return "no-callback"
+	}
+	ep.beginEval()
+	gate, parked := make(chan struct{}), make(chan struct{})
+	ep.mu.Lock()
+	ep.gate, ep.parked = gate, parked
+	ep.mu.Unlock()
+	name := "mymaster"
+	if !named {
+		name = "othermaster"
+	}
+	var msg rueidis.PubSubMessage
+	switch kind {
+	case "sm":
+		msg = rueidis.PubSubMessage{Channel: "+switch-master", Message: fmt.Sprintf("%s n9 6379 n%d 6379", name, addr)}
+	default:
+		msg = rueidis.PubSubMessage{Channel: "+reboot", Message: fmt.Sprintf("master %s n%d 6379", name, addr)}
+	}
+	if named {
+		ep.mu.Lock()
+		ep.reported[nodeName(addr)] = true
+		ep.namedM[nodeName(addr)] = true
+		ep.mu.Unlock()
+	}
+	result := "ok"
+	refreshDone := make(chan string, 1)
+	go func() {
+		r := "ok"
+		defer func() {
+			if rec := recover(); rec != nil {
+				r = "panic"
+			}
+			refreshDone <- r
+		}()
+		err := rueidis.VerifRoutingSentinelRefresh(ep.client)
+		switch {
+		case err == nil:
+		case err == rueidis.ErrNoAddr || err == errFakeClosed:
+			r = "notarget"
+		default:
+			r = "failed"
+		}
+	}()
+	released := false
+	select {
+	case <-parked: // the refresh is inside its ROLE check, holding the client mutex
+	case r := <-refreshDone: // the refresh ended without any ROLE (e.g. no sentinel answered)
+		refreshDone <- r
+		ep.mu.Lock()
+		ep.gate, ep.parked = nil, nil
+		ep.mu.Unlock()
+		released = true
+	case <-time.After(3 * time.Second):
+		result = "refresh-hang"
+	}
+	started, eventDone := make(chan struct{}), make(chan bool, 1)
+	go func() {
+		ok := true
+		defer func() {
+			if rec := recover(); rec != nil {
+				ok = false
+			}
+			eventDone <- ok
+		}()
+		close(started)
+		cb(msg)
+	}()
+	<-started
+	time.Sleep(3 * time.Millisecond) // the handler is now blocked on the mutex (or has returned)
+	if !released {
+		close(gate)
+	}
+	select {
+	case r := <-refreshDone:
+		if result == "ok" {
+			result = r
+		}
+	case <-time.After(3 * time.Second):
+		result = "refresh-hang"
+	}
+	select {
+	case ok := <-eventDone:
+		if !ok {
+			result = "panic"
+		}
+	case <-time.After(3 * time.Second):
+		result = "event-hang"
+	}
+	if result == "panic" {
+		ep.client = nil
+	}
+	return ep.snapshot(result)
+}
+
+// primaryProbe sends one write and reports which node got it
+func (ep *sentEpisode) primaryProbe() (addr string, dead bool, ok bool) {
+	if ep.client == nil {
+		return "", false, false
+	}
+	ep.w.take()
+	func() {
+		defer func() { recover() }()
+		ep.client.Do(context.Background(), ep.client.B().Set().Key("probe").Value("v").Build())
+	}()
+	log := ep.w.take()
+	if len(log) != 1 {
+		return "", false, false
+	}
+	return log[0].addr, log[0].dead, true
+}
+
 func (ep *sentEpisode) do(c *Ctx, repl bool) (string, string) {
 	if ep.client == nil {
 		return "no-client", ""
@@ -630,6 +763,25 @@ func (r *sentRunner) exec(c *Ctx, line string) {
 				r.ep.evalOracle(c, line, "PR")
 			}
 		}
+	case "evdur":
+		if r.ep == nil {
+			return
+		}
+		addr, _ := strconv.Atoi(kv["addr"])
+		named := kv["named"] == "1"
+		ans := r.ep.eventDuringRefresh(ws[1], named, addr)
+		c.Emit(line, ans, true)
+		c.Hit("evdur:" + ws[1])
+		if named && r.ep.mode == "m" && !strings.Contains(ans, "hang") && !strings.HasPrefix(ans, "panic") && !strings.HasPrefix(ans, "no-") {
+			if to, dead, ok := r.ep.primaryProbe(); ok {
+				want := "n" + strconv.Itoa(addr)
+				c.Emit(fmt.Sprintf("!evlost to=%s named=%s closed=%s", short(to), want, b01(dead)), "ok", false)
+				if short(to) != want || dead {
+					c.Fail("sentinel:switch-event-lost-during-refresh", line,
+						fmt.Sprintf("a %s event naming %s was delivered while a refresh held the client mutex; after both finished primary traffic goes to %s (closed=%v)", ws[1], want, short(to), dead))
+				}
+			}
+		}
 	case "do":
 		if r.ep == nil {
 			return
@@ -747,6 +899,21 @@ func runSentinel(c *Ctx) {
 				"world n2=D:M", t1, "do repl=1",
 				"world n2=D:S n3=D:M s0=D:-:n0:2 s1=D:-:n0:2", t2, "do repl=1",
 				"world n2=D:M n3=D:S s0=D:-:n0:2 s1=D:-:n0:3", t1, "do repl=1")
+		}
+	}
+	// ---- a +switch-master / +reboot event delivered WHILE a refresh is parked in its ROLE check; the refresh
+	//      re-confirms the old master (stale sentinel answer, old master still answers "master") or fails
+	for _, kind := range []string{"sm", "rbm"} {
+		for _, sents := range []string{"init=0 s0=D:-:n0:-", "init=0,1 s0=D:-:n0:- s1=D:-:n0:-", "init=0,1 s0=D:1:n0:- s1=D:-:n1:-"} {
+			for _, old := range []string{"M", "MS", "S", "z", "E"} { // what the old master answers to the parked ROLE and later
+				for _, named := range []string{"1", "0"} {
+					run("reset mode=m "+sents+" n0=D:M n1=D:S", "do repl=0",
+						"world n0=D:"+old+" n1=D:M",
+						fmt.Sprintf("evdur %s named=%s addr=1", kind, named), "do repl=0",
+						"world n0=D:M n1=D:M",
+						fmt.Sprintf("evdur %s named=%s addr=0", kind, named), "do repl=0", "refresh", "do repl=0")
+				}
+			}
 		}
 	}
 	// ---- SendToReplicas mode, success paths
